@@ -140,6 +140,22 @@ def run(ctx, res):
                 got = (errs[0][0], errs[0][1])
                 if got != m['pos']:
                     problems.append('first diagnostic at %d:%d, construct is at %s' % (got[0], got[1], m['pos']))
+        # every located message of the run (also the follow-up ones of a multi-message error): the line number of its header is the
+        # line it quotes, the quoted text is that line of the input, and the column lies within that line (+1 for the end)
+        if not problems:
+            from .maintie import LOCATED as BLOCK
+            src_lines = text.split(b'\n')
+            for mb in BLOCK.finditer(b['stderr']):
+                hl, hc, no = int(mb.group('line')), int(mb.group('col')), int(mb.group('no'))
+                want = src_lines[hl - 1] if 0 < hl <= len(src_lines) else None
+                if want is not None and want.endswith(b'\r'):
+                    want = want[:-1]
+                if hl != no:
+                    problems.append('a message is headed %d:%d but quotes line %d' % (hl, hc, no))
+                elif want is None or mb.group('src').rstrip() != want.rstrip():
+                    problems.append('the message headed %d:%d does not quote line %d of the input' % (hl, hc, hl))
+                elif not (1 <= hc <= len(want) + 1):
+                    problems.append('the message headed %d:%d points outside line %d (%d bytes)' % (hl, hc, hl, len(want)))
         if got is not None and m['pos'] is not None and not problems:
             lines = text.split(b'\n')
             src = lines[m['pos'][0] - 1] if m['pos'][0] - 1 < len(lines) else b''
